@@ -7,6 +7,7 @@ import (
 
 	"github.com/jsightapi/jsight-api-go-library/catalog"
 	"github.com/jsightapi/jsight-api-go-library/directive"
+	"github.com/jsightapi/jsight-api-go-library/jerr"
 )
 
 // Verification hooks (build tag "verif"): read-only accessors and exports of
@@ -49,4 +50,18 @@ func VerifPathParameters(p string) [][2]string {
 		r = append(r, [2]string{string(x.path), x.parameter})
 	}
 	return r
+}
+
+// VerifScanOnly runs only the scanning phase (directive tree construction).
+func (core *JApiCore) VerifScanOnly() *jerr.JApiError { return core.scanProject() }
+
+// VerifPasteOnly runs the macro/paste part of compileCore (after VerifScanOnly).
+func (core *JApiCore) VerifPasteOnly() *jerr.JApiError {
+	if je := core.collectMacro(); je != nil {
+		return je
+	}
+	if je := core.checkMacroForRecursion(); je != nil {
+		return je
+	}
+	return core.processPaste()
 }
